@@ -378,6 +378,11 @@ theorem step_inv_lLen (s : St) (t : Nat) (h : Inv s) (ht : s.thr t = .lLen) :
   simp only [step, ht]
   ring_fields h t
 
+theorem step_inv_lLenH (s : St) (t tl : Nat) (h : Inv s) (ht : s.thr t = .lLenH tl) :
+    Inv (step s t) := by
+  simp only [step, ht]
+  ring_fields h t
+
 theorem step_inv_pLen (s : St) (t id : Nat) (h : Inv s) (ht : s.thr t = .pLen id) :
     Inv (step s t) := by
   simp only [step, ht]
@@ -417,6 +422,7 @@ theorem step_inv (s : St) (t : Nat) (h : Inv s) (hex : CanExact s (.step t)) : I
   | cRead id => exact step_inv_cRead s t id h hl
   | cRelease id v => exact step_inv_cRelease s t id v h hl
   | lLen => exact step_inv_lLen s t h hl
+  | lLenH tl => exact step_inv_lLenH s t tl h hl
 
 theorem apply_inv_send (s : St) (t v : Nat) (h : Inv s) : Inv (apply s (.send t v)) := by
   simp only [apply]
